@@ -29,19 +29,7 @@ OUT_OF_BOUNDS = ['more than 4 Buildable nodes, 2 child slots per node', 'depth n
                  'GC-driven id reuse']
 
 
-class Box:
-  """User-registered node type whose flatten allocates fresh temporaries on every call."""
-
-  def __init__(self, items):
-    self.items = list(items)
-
-
-daglish.register_node_traverser(
-    Box,
-    flatten_fn=lambda b: (tuple([list(b.items)][0]), None),
-    unflatten_fn=lambda values, _: Box(values),
-    path_elements_fn=lambda b: tuple(daglish.Index(i) for i in range(len(b.items))),
-)
+Box = fam.Box
 
 
 def _wrap(kind, v):
